@@ -1074,7 +1074,12 @@ func main() {
 		ops := genCase(cr, 4+cr.Intn(*nops), res)
 		lines, pan := runImpl(ops)
 		if pan != "" {
-			res.Count("impl-panics")
+			// predicted by the model (else it is reported as a failure below); only reachable by
+			// rawadd (unverified scheduler failure) or beyond the uint64 wrap bound
+			res.Count("impl-panics-predicted-by-model:" + strings.Fields(pan)[0])
+			if os.Getenv("POOLDRV_SHOW_PANICS") != "" {
+				fmt.Fprintln(os.Stderr, "PANIC", pan, "\n  ", strings.Join(lines, " | "))
+			}
 		}
 		if classify(lines, res) {
 			key := strings.Join(ops, ";")
